@@ -4,11 +4,13 @@
 // (a) one-hot trajectory in Rn<double,16>: the algorithm is linear there, so every returned point IS its
 //     weight vector over the input points; (b) random SE2 / SO3 trajectories (window ends, geodesic law).
 #include "rec.h"
+#include "rec_bundle.h"
 #include <manif/algorithms/decasteljau.h>
 #include <sys/wait.h>
 #include <signal.h>
 using namespace rec;
 using R16 = manif::Rn<double, 16>;
+using B1 = manif::Bundle<double, manif::SE2, manif::SO3, manif::R3>;   // the algorithm on a product group (vlib.BUNDLE_KEYS B1)
 
 template <class G> static void emit_group(const char* tag, int N, int d, int k, int closed, Rng& r) {
   std::vector<G> traj;
@@ -54,7 +56,7 @@ int main(int argc, char** argv) {
   for (auto& pl : plan) {
     ++ln;
     int N = std::atoi(pl[0].c_str()), d = std::atoi(pl[1].c_str()), k = std::atoi(pl[2].c_str()), closed = std::atoi(pl[3].c_str());
-    std::string mode = pl[5];   // onehot | SE2 | SO3 | SE3
+    std::string mode = pl[5];   // onehot | SE2 | SO3 | SE3 | B1
     std::fflush(all);
     pid_t pid = fork();
     if (pid == 0) {
@@ -65,6 +67,7 @@ int main(int argc, char** argv) {
       else if (mode == "SE2") emit_group<manif::SE2d>("SE2", N, d, k, closed, r);
       else if (mode == "SO3") emit_group<manif::SO3d>("SO3", N, d, k, closed, r);
       else if (mode == "SE3") emit_group<manif::SE3d>("SE3", N, d, k, closed, r);
+      else if (mode == "B1") emit_group<B1>("B1", N, d, k, closed, r);
       out().close(); _exit(0);
     }
     int st = 0; waitpid(pid, &st, 0);
